@@ -3,7 +3,10 @@
 Clauses and their oracles
 
   * additivity        V(A u B [u C]) == V(A) + V(B) [+ V(C)] on real builds (infinite and finite projection,
-                      random / per-element / duplicate / empty splits), every potential freshly constructed;
+                      random / per-element / duplicate / empty splits), every potential freshly constructed; with a
+                      parametrization that carries per-element sigmas the union is built with the whole dict and every part
+                      with the entries of its own elements (the potential of a set does not depend on the broadening of
+                      elements it does not contain);
   * reslice           infinite projection: sum over slices of the built potential is the same for two different slice
                       thickness specifications and for the single-slice build;
   * membership        independent exact-arithmetic model (fractions.Fraction built from the float inputs): the slice of an
@@ -29,6 +32,7 @@ from fractions import Fraction
 import numpy as np
 
 from vf import gen as G
+from vf import lib_potopts as P
 
 PROPERTY = "C09"
 TECHNIQUE = ("runtime monitoring; algebraic relations between real builds + exact rational slice-membership model "
@@ -39,7 +43,9 @@ RULE = ("cells 3-8 A wide, height 1.5-14 A, 1-14 atoms of 1-3 elements; slice th
         "ulp), 1e-7 below and above edges, 0, -0.0, the cell height, tiny negatives, displaced by whole cell heights; x, y "
         "anywhere incl. 0, the cell length and tiny negative rounding artefacts; non-trivial = at least 2 slices and at "
         "least one atom exactly on an interior edge or on a cell face (membership), both subsets non-empty (additivity), "
-        "different slice counts (reslice); distinct = distinct case signature")
+        "different slice counts (reslice); about half of the additivity / reslice cases use non-default constructor "
+        "arguments (parametrization objects with sigmas for all / some / absent elements, custom Quadrature / "
+        "ScatteringFactor / Gaussian integrators); distinct = distinct case signature")
 CLAUSES = ["additivity-infinite", "additivity-finite", "reslice-projection", "exactly-once", "membership-model",
            "boundary-upper-slice", "slice-window-atoms", "slice-content", "thickness-sum", "bad-thickness-refused"]
 QUICK = dict(n=260, time=45)
@@ -211,6 +217,7 @@ def gen(rng, tier):
         mode = str(rng.choice(["random", "random", "element", "duplicate", "empty"]))
         parts = 3 if (mode == "random" and rng.random() < 0.3) else 2
         return {"kind": "add", "cell": cell, "gpts": G.rand_gpts(rng, 8, 24), "projection": proj, "slice_thickness": st,
+                "opts": P.gen(rng, proj, cell["symbols"], allow=("sigmas", "integrator")),
                 "parametrization": str(rng.choice(["lobato", "kirkland", "peng"])), "mode": mode,
                 "labels": [int(v) for v in rng.integers(0, parts, size=n)],
                 "precision": "float64" if rng.random() < 0.8 else "float32"}
@@ -222,6 +229,7 @@ def gen(rng, tier):
             st2 = [float(v) for v in w / w.sum() * height]
         cell = _cell(rng, height, st, int(rng.integers(1, 10)))
         return {"kind": "reslice", "cell": cell, "gpts": G.rand_gpts(rng, 8, 24), "slice_thickness": st, "slice_thickness_2": st2,
+                "opts": P.gen(rng, "infinite", cell["symbols"], allow=("sigmas", "integrator")),
                 "parametrization": str(rng.choice(["lobato", "kirkland", "peng"]))}
     height, st = _spec(rng)
     direct = bool(rng.random() < 0.3)
@@ -232,7 +240,8 @@ def gen(rng, tier):
             p[1] = abs(p[1]) % cell["cell"][1]
     w0 = int(rng.integers(0, 40))
     return {"kind": "member", "direct": direct, "cell": cell, "gpts": G.rand_gpts(rng, 8, 16), "slice_thickness": st,
-            "window": [w0, w0 + int(rng.integers(1, 6))]}
+            "window": [w0, w0 + int(rng.integers(1, 6))],
+            "opts": {} if direct else P.gen(rng, "infinite", cell["symbols"], allow=("sigmas", "integrator"), p_default=0.6)}
 
 
 def fixed_cases(tier):
@@ -257,6 +266,23 @@ def fixed_cases(tier):
                 "cell": {"cell": [4.0, 5.0, 3.0], "symbols": ["Si", "C", "O"],
                          "positions": [[3.0, 2.0, 1.0], [2.0, 4.9, 1.0], [1.0, 1.0, 2.0]]}})
     out.append({"kind": "refuse", "height": 3.0, "slice_thickness": [1.0, 1.0, 1.5], "projection": "infinite"})
+    # non-default constructor arguments: sigmas for all / some elements, custom integrators
+    mixed = {"cell": [4.0, 5.0, 3.0], "symbols": ["Si", "C", "O", "Si"],
+             "positions": [[3.9, 2.0, 1.0], [2.0, 4.9, 1.0], [1.0, 1.0, 2.0], [0.1, 0.1, 2.5]]}
+    quad = {"type": "quadrature", "cutoff_tolerance": 1e-3, "taper": 0.7, "integration_step": 0.05, "quad_order": 4,
+            "inner_cutoff_factor": 3.0}
+    for proj, opts, mode in (("finite", {"sigmas": {"Si": 0.3, "C": 0.2, "O": 0.1}}, "element"),
+                             ("finite", {"sigmas": {"Si": 0.3}}, "element"),
+                             ("infinite", {"sigmas": {"Si": 0.3}}, "element"),
+                             ("finite", {"sigmas": {"C": 0.25}, "integrator": quad}, "random"),
+                             ("infinite", {"sigmas": {"O": 0.2, "H": 0.1}, "integrator": {"type": "scattering"}}, "random"),
+                             ("finite", {"integrator": {"type": "gaussian"}}, "random")):
+        out.append({"kind": "add", "gpts": [12, 15], "slice_thickness": 1.0, "projection": proj, "parametrization": "lobato",
+                    "mode": mode, "labels": [0, 1, 1, 0], "precision": "float64", "cell": mixed, "opts": opts})
+    out.append({"kind": "reslice", "cell": mixed, "gpts": [12, 15], "slice_thickness": 0.4, "slice_thickness_2": [1.3, 1.7],
+                "parametrization": "kirkland", "opts": {"sigmas": {"Si": 0.3, "O": 0.1}, "integrator": {"type": "scattering"}}})
+    out.append({"kind": "member", "direct": False, "cell": mixed, "gpts": [9, 8], "slice_thickness": 0.5, "window": [1, 4],
+                "opts": {"sigmas": {"Si": 0.3}}})
     return out
 
 
@@ -283,12 +309,23 @@ def _tagged(desc):
     return atoms
 
 
-def _build(atoms, case, st, proj=None, gpts=None):
+def _build(atoms, case, st, proj=None, gpts=None, sigmas="opts"):
+    """New Potential with new parametrization / integrator objects (case["opts"]: non-default constructor arguments)."""
     import abtem
-    pot = abtem.Potential(atoms, gpts=tuple(gpts or case["gpts"]), slice_thickness=_st_arg(st),
-                          projection=proj or case.get("projection", "infinite"),
-                          parametrization=case.get("parametrization", "lobato"))
+    kw = P.kwargs(case.get("opts"), proj or case.get("projection", "infinite"), case.get("parametrization", "lobato"),
+                  sigmas=sigmas)
+    pot = abtem.Potential(atoms, gpts=tuple(gpts or case["gpts"]), slice_thickness=_st_arg(st), **kw)
     return pot, pot.build(lazy=False)
+
+
+def _own_sigmas(case, atoms):
+    """The sigmas of the elements present in `atoms`: the potential of an atom set does not depend on the broadening of
+    elements it does not contain, so a part of a union is built with the entries of its own elements only."""
+    sig = (case.get("opts") or {}).get("sigmas")
+    if not sig:
+        return "opts"
+    present = set(atoms.get_chemical_symbols())
+    return {e: v for e, v in sig.items() if e in present}
 
 
 def check(ctx, case):
@@ -338,15 +375,17 @@ def check_add(ctx, case):
             idx = np.where(labels == g)[0]
             sub = atoms[idx] if len(idx) else atoms[[]]
             sizes.append(len(idx))
-            parts.append(_build(sub, case, st)[1])
+            parts.append(_build(sub, case, st, sigmas=_own_sigmas(case, sub))[1])
     w = np.asarray(whole.array, dtype=np.float64)
     s = np.zeros_like(w)
     for p in parts:
         ctx.equal(tuple(p.slice_thickness), tuple(whole.slice_thickness), "additivity-" + case["projection"])
         s += np.asarray(p.array, dtype=np.float64)
-    rtol = 1e-9 if case["precision"] == "float64" else 2e-5
+    opts = case.get("opts") or {}
+    rtol = 1e-9 if (case["precision"] == "float64" and not P.single_precision(opts)) else 2e-5
     if case["projection"] == "finite" and len(set(case["cell"]["symbols"])) > 1:
-        rtol = TOL_FINITE_MIXED
+        # the extrapolated tail scales with the integrator's cutoff_tolerance (default 1e-4)
+        rtol = TOL_FINITE_MIXED * max(1.0, opts.get("integrator", {}).get("cutoff_tolerance", 1e-4) / 1e-4)
     ctx.monitor("additivity-builds", len(parts) + 1)
     ctx.close(w, s, "additivity-" + case["projection"], rtol=rtol, mode=mode, sizes=sizes)
     ctx.nontrivial(sum(1 for k in sizes if k > 0) >= 2 and float(np.abs(w).max()) > 0)
@@ -453,7 +492,8 @@ def check_member(ctx, case):
         thick = tuple(sliced.slice_thickness)
         want, on_b, unj = _check_sliced(ctx, sliced, tagged_z, height, False, case, "direct")
     else:
-        pot = abtem.Potential(atoms, gpts=tuple(case["gpts"]), slice_thickness=_st_arg(st), projection="infinite")
+        pot = abtem.Potential(atoms, gpts=tuple(case["gpts"]), slice_thickness=_st_arg(st),
+                              **P.kwargs(case.get("opts"), "infinite", "lobato"))
         sliced = pot.get_sliced_atoms()
         ctx.expect(isinstance(sliced, SliceIndexedAtoms), "membership-model", what="infinite projection uses SliceIndexedAtoms")
         thick = tuple(pot.slice_thickness)
@@ -486,8 +526,8 @@ def check_member(ctx, case):
                 one = Atoms(sym, positions=[[0.3 * case["cell"]["cell"][0], 0.6 * case["cell"]["cell"][1], 0.5 * height]],
                             cell=case["cell"]["cell"], pbc=True)
                 unit[sym] = float(np.asarray(abtem.Potential(one, gpts=tuple(case["gpts"]), slice_thickness=height,
-                                                             projection="infinite").build(lazy=False).array,
-                                             dtype=np.float64).mean())
+                                                             **P.kwargs(case.get("opts"), "infinite", "lobato")
+                                                             ).build(lazy=False).array, dtype=np.float64).mean())
             expect = np.zeros(n)
             for tag, k in want.items():
                 expect[k] += unit[case["cell"]["symbols"][tag]]
